@@ -6,6 +6,14 @@ use std::cell::RefCell;
 pub mod c01;
 pub mod c02;
 pub mod c03;
+pub mod c04;
+pub mod c05;
+pub mod c06;
+pub mod c07;
+pub mod c08;
+pub mod c10;
+pub mod c11;
+pub mod c20;
 pub mod c13;
 
 thread_local! {
@@ -48,6 +56,15 @@ pub fn run(a: &Args) {
         "c01" => c01::run(a),
         "c02" => c02::run(a),
         "c03" => c03::run(a),
+        "c04" => c04::run(a),
+        "c05" => c05::run(a),
+        "c06" => c06::run(a),
+        "c07" => c07::run(a),
+        "c08" => c08::run(a, false),
+        "c09" => c08::run(a, true),
+        "c10" => c10::run(a),
+        "c11" => c11::run(a),
+        "c20" => c20::run(a),
         "c13" => c13::run(a),
         other => panic!("unknown property {}", other),
     }
